@@ -113,3 +113,46 @@ def canon_rterr(line):
     if "rterr " in line:
         return _RTERR.sub("rterr", line)
     return line
+
+
+def rust_f64(x):
+    """Rust's `Display` for f64: the shortest decimal digits that round-trip (closest to the
+    exact value; an exact tie rounds half up), written positionally without exponent"""
+    from decimal import Decimal, ROUND_HALF_UP, localcontext
+    if x != x:
+        return "NaN"
+    if x in (float("inf"), float("-inf")):
+        return "inf" if x > 0 else "-inf"
+    if x == 0:
+        return "-0" if str(x).startswith("-") else "0"
+    with localcontext() as cx:
+        cx.prec = 800
+        exact = Decimal(x)
+        best = None
+        for p in range(1, 18):
+            q = exact.adjusted() - p + 1
+            cand = exact.quantize(Decimal(1).scaleb(q), rounding=ROUND_HALF_UP)
+            if float(cand) == x:
+                best = cand
+                break
+        if best is None:
+            best = Decimal(repr(x))
+        t = format(best, "f")
+    if "." in t:
+        t = t.rstrip("0").rstrip(".")
+    return t
+
+
+_MARK = re.compile(r"e29fa6([0-9a-f]*?)e29fa7")
+
+
+def expand_float_markers(line):
+    """model strings carry floats as the marker ⟦bits⟧ (hex inside s:<hex>); expand to Rust's text"""
+    if "e29fa6" not in line:
+        return line
+
+    def rep(m):
+        bits = int(bytes.fromhex(m.group(1)).decode())
+        x = struct.unpack(">d", struct.pack(">Q", bits))[0]
+        return rust_f64(x).encode().hex()
+    return _MARK.sub(rep, line)
